@@ -165,8 +165,9 @@ pub fn run_jobs(ctx: &mut Ctx, sub: &str, jobs: Vec<Job>, trials: u64) {
                     }
                 }
                 if ctx_samples_wanted(ctx, sub) {
-                    if let Some(s) = stats.first() {
-                        ctx.add_sample(json!({"sub": sub, "job": job, "first_statistic": {"name": s.count.name, "k": s.count.k, "n": s.count.n, "p": s.count.p}}));
+                    // prefer a statistic with a non-degenerate law as the sample
+                    if let Some(s) = stats.iter().find(|s| s.count.p > 0.0 && s.count.p < 1.0) {
+                        ctx.add_sample(json!({"sub": sub, "job": job, "statistic": {"name": s.count.name, "k": s.count.k, "n": s.count.n, "p": s.count.p}}));
                     }
                 }
                 for (first, again) in confirmed {
